@@ -12,6 +12,7 @@ import (
 	"sync"
 	"time"
 
+	metrics "github.com/hashicorp/go-metrics/compat"
 	"github.com/hashicorp/memberlist"
 	"github.com/hashicorp/serf/serf"
 	"github.com/hashicorp/serf/testutil"
@@ -34,6 +35,96 @@ func c16BindIP() net.IP {
 		c16IP = ip
 	})
 	return c16IP
+}
+
+// c16Sink is the process-wide metrics sink. Every handler that reports a status change bumps a
+// counter (serf.member.join / failed / left / update) between applying the change and sending the
+// event; the sink lets the harness hold a handler exactly there (one shot) while another
+// goroutine delivers a message about the same member.
+type c16Sink struct {
+	metrics.BlackholeSink
+	mu   sync.Mutex
+	key  string
+	hook func()
+}
+
+func (s *c16Sink) IncrCounterWithLabels(key []string, val float32, labels []metrics.Label) {
+	s.mu.Lock()
+	h := s.hook
+	hit := false
+	if h != nil {
+		for _, k := range key {
+			if k == s.key {
+				hit = true
+			}
+		}
+	}
+	if hit {
+		s.hook = nil
+	}
+	s.mu.Unlock()
+	if hit {
+		h()
+	}
+}
+
+var (
+	c16SinkOnce sync.Once
+	c16TheSink  = &c16Sink{}
+)
+
+func c16InstallSink() {
+	c16SinkOnce.Do(func() {
+		conf := metrics.DefaultConfig("")
+		conf.EnableHostname = false
+		conf.EnableHostnameLabel = false
+		conf.EnableRuntimeMetrics = false
+		_, _ = metrics.NewGlobal(conf, c16TheSink)
+	})
+}
+
+// c16Held runs a() with the handler held at its `key` counter, starts b() while it is held, gives b
+// a moment to get through (it cannot, when a holds the member lock), then lets a continue.
+func c16Held(key string, a, b func()) {
+	reached := make(chan struct{})
+	release := make(chan struct{})
+	c16TheSink.mu.Lock()
+	c16TheSink.key = key
+	c16TheSink.hook = func() {
+		close(reached)
+		select {
+		case <-release:
+		case <-time.After(5 * time.Second):
+		}
+	}
+	c16TheSink.mu.Unlock()
+	aDone := make(chan struct{})
+	go func() { defer close(aDone); a() }()
+	select {
+	case <-reached:
+	case <-aDone: // the handler never got to the counter: run b afterwards
+	case <-time.After(5 * time.Second):
+	}
+	bDone := make(chan struct{})
+	go func() { defer close(bDone); b() }()
+	select {
+	case <-bDone:
+	case <-time.After(20 * time.Millisecond):
+	}
+	close(release)
+	<-aDone
+	<-bDone
+	c16TheSink.mu.Lock()
+	c16TheSink.hook = nil
+	c16TheSink.mu.Unlock()
+}
+
+func c16Rec(role string, code int) string {
+	v, err := strconv.Atoi(role)
+	if err != nil {
+		return "x" + role
+	}
+	return strconv.Itoa(4*v + code)
 }
 
 type c16Node struct {
@@ -100,6 +191,7 @@ func (n *c16Node) collector() {
 }
 
 func c16Start(snapshot, ucoal, mcoal bool) (*c16Node, error) {
+	c16InstallSink()
 	n := &c16Node{evCh: make(chan serf.Event, 4), stop: make(chan struct{}), lastKind: map[string]string{},
 		emitLast: map[string]string{}, ltime: 100, coalesce: ucoal || mcoal, ucoal: ucoal, mcoal: mcoal}
 	conf := serf.DefaultConfig()
@@ -360,6 +452,124 @@ func c16Exec(ops []string) []string {
 			} else {
 				outs = append(outs, "emit -")
 			}
+		case f[0] == "race" && len(f) == 4:
+			before, known := n.member(name)
+			intent := func() {
+				n.ltime++
+				n.conf.MemberlistConfig.Delegate.NotifyMsg(serf.VerifEncodeLeave(n.ltime, name, false))
+			}
+			switch {
+			case f[2] == "fail-intent" && known && before.Status == serf.StatusAlive:
+				c16Held("failed", func() { ed.NotifyLeave(c16NodeOf(name, "")) }, intent)
+			case f[2] == "update-intent" && known && before.Status == serf.StatusFailed:
+				c16Held("update", func() { ed.NotifyUpdate(c16NodeOf(name, f[3])) }, intent)
+			case f[2] == "fail-intent" || f[2] == "update-intent":
+				outs = append(outs, "emit -")
+				continue
+			default:
+				outs = append(outs, "bad-op")
+				continue
+			}
+			// the status history: the notification's change was applied before the intent was sent
+			after, _ := n.member(name)
+			if after.Status != serf.StatusLeft {
+				outs = append(outs, "emit ?"+after.Status.String())
+				continue
+			}
+			first := "failed"
+			if f[2] == "update-intent" {
+				first = "update"
+			}
+			role := after.Tags["role"]
+			n.emitLast[name] = "leave"
+			n.emitCount += 2
+			if !n.mcoal {
+				n.expM += 2
+			}
+			outs = append(outs, fmt.Sprintf("emit %s/%s/%s,leave/%s/%s", first, hexs(name), c16Rec(role, 3), hexs(name), c16Rec(role, 2)))
+		case f[0] == "raceloop" && len(f) == 3:
+			rounds, err := strconv.Atoi(f[2])
+			if err != nil || rounds < 0 || rounds > 100000 || n.coalesce || n.paused {
+				outs = append(outs, "bad-op")
+				continue
+			}
+			bad, firstBad := 0, "-"
+			for r := 0; r < rounds; r++ {
+				n.mu.Lock()
+				base := len(n.got)
+				n.lastKind[name] = ""
+				n.mu.Unlock()
+				ed.NotifyJoin(c16NodeOf(name, strconv.Itoa(r+1)))
+				var wg sync.WaitGroup
+				wg.Add(2)
+				go func() { defer wg.Done(); ed.NotifyLeave(c16NodeOf(name, "")) }()
+				go func() {
+					defer wg.Done()
+					n.ltime++
+					n.conf.MemberlistConfig.Delegate.NotifyMsg(serf.VerifEncodeLeave(n.ltime, name, false))
+				}()
+				wg.Wait()
+				// both handlers returned, so everything is in the pipeline; whatever the order of the two
+				// was, the member is left now and the last event about it is its leave: wait for that
+				last := r == rounds-1
+				deadline := time.Now().Add(time.Second)
+				for {
+					n.mu.Lock()
+					lk := n.lastKind[name]
+					idle := time.Since(n.lastAt)
+					n.mu.Unlock()
+					need := time.Millisecond
+					if last {
+						need = 25 * time.Millisecond // stragglers of the last round
+					}
+					if (lk == "leave" && idle >= need) || time.Now().After(deadline) {
+						break
+					}
+					time.Sleep(200 * time.Microsecond)
+				}
+				n.mu.Lock()
+				items := append([]string{}, n.got[base:]...)
+				n.got = n.got[:base]
+				n.mu.Unlock()
+				var kinds []string
+				for _, it := range items {
+					p := strings.SplitN(it, "/", 3)
+					if len(p) == 3 && p[1] == hexs(name) {
+						kinds = append(kinds, p[0])
+					}
+				}
+				// in-order part of join, failed, leave that ends with leave (the member is left now)
+				ok := len(kinds) > 0 && kinds[len(kinds)-1] == "leave"
+				want := []string{"join", "failed", "leave"}
+				wi := 0
+				for _, k := range kinds {
+					for wi < len(want) && want[wi] != k {
+						wi++
+					}
+					if wi == len(want) {
+						ok = false
+						break
+					}
+					wi++
+				}
+				if m, _ := n.member(name); m.Status != serf.StatusLeft {
+					ok = false
+					kinds = append(kinds, "status="+m.Status.String())
+				}
+				if !ok {
+					bad++
+					if firstBad == "-" {
+						firstBad = strings.Join(kinds, "+")
+						if firstBad == "" {
+							firstBad = "nothing"
+						}
+					}
+				}
+			}
+			if rounds > 0 {
+				n.emitLast[name] = "leave"
+			}
+			outs = append(outs, fmt.Sprintf("rounds %d bad %d first %s", rounds, bad, firstBad))
 		case f[0] == "burst" && len(f) == 4:
 			k, e1 := strconv.Atoi(f[2])
 			v0, e2 := strconv.Atoi(f[3])
@@ -520,6 +730,52 @@ func c16Gen(rng *rand.Rand, tier string) []Case {
 			add(c, body, nt, tag)
 		}
 	}
+	// two goroutines on one member: a memberlist notification held just before its send + a leave intent
+	for _, c := range []cfg{{0, 0, 0}, {1, 0, 0}, {0, 0, 1}} {
+		a, b := hexs("a"), hexs("b")
+		body := []string{"join " + a + " 1", "join " + b + " 2", "wait",
+			"race " + a + " fail-intent 0", "wait",
+			"race " + a + " update-intent 3", "wait",
+			"join " + a + " 4", "leave " + a, "wait", "race " + a + " update-intent 5", "wait",
+			"join " + a + " 6", "race " + a + " fail-intent 0", "race " + b + " fail-intent 0", "wait"}
+		if c.m == 0 {
+			rounds := 150
+			if tier == "thorough" {
+				rounds = 3000
+			}
+			body = append(body, fmt.Sprintf("raceloop %s %d", hexs("node c"), rounds), "wait")
+		}
+		body = append(body, "end")
+		add(c, body, true, "concurrent-handlers")
+	}
+	nrace := 6
+	if tier == "thorough" {
+		nrace = 60
+	}
+	for i := 0; i < nrace; i++ {
+		c := []cfg{{0, 0, 0}, {1, 0, 0}}[i%2]
+		var body []string
+		ver := 0
+		for j := 0; j < 3+rng.Intn(6); j++ {
+			h := hexs(names[rng.Intn(len(names))])
+			ver++
+			switch rng.Intn(5) {
+			case 0:
+				body = append(body, fmt.Sprintf("join %s %d", h, ver), "race "+h+" fail-intent 0")
+			case 1:
+				body = append(body, fmt.Sprintf("join %s %d", h, ver), "leave "+h, fmt.Sprintf("race %s update-intent %d", h, ver+1))
+				ver++
+			case 2:
+				body = append(body, "race "+h+" fail-intent 0")
+			case 3:
+				body = append(body, fmt.Sprintf("race %s update-intent %d", h, ver))
+			default:
+				body = append(body, "wait")
+			}
+		}
+		body = append(body, "wait", "end")
+		add(c, body, true, "concurrent-handlers-random")
+	}
 	// the application stops reading: the tee drops (snapshot on), then reading resumes
 	nd := 1
 	if tier == "thorough" {
@@ -541,7 +797,7 @@ func init() {
 	register(&Prop{
 		ID: "C16",
 		Rule: "one real serf node per case (serf.Create, loopback) in 6 configurations (snapshot × member coalescing, plus user coalescing); member transitions through the real eventDelegate (NotifyJoin/Leave/Update) and leave intents through delegate.NotifyMsg, user events and (internal) queries through the public API; " +
-			"directed life cycles with one change per quiet period, flapping inside a quantum, random histories over 3 members (4–25 ops, waits at random points, 1 in 5 ends in Shutdown), and a stalled reader with >4500 updates so that the tee drops; " +
+			"two goroutines on one member (a notification held at the counter before its send + a leave intent; and free-running rounds), directed life cycles with one change per quiet period, flapping inside a quantum, random histories over 3 members (4–25 ops, waits at random points, 1 in 5 ends in Shutdown), and a stalled reader with >4500 updates so that the tee drops; " +
 			"non-trivial = some member has ≥3 status changes in the case, or the directed/drop cases; distinct = distinct op sequence",
 		Gen:  c16Gen,
 		Exec: c16Exec,
